@@ -20,9 +20,9 @@ echo "suite with change: $SUITE"
 WITH=$(timeout 600 bash -c "$DEMOCMD" 2>&1 | grep -E "^test result|panicked|FAILED" | head -3 | tr '\n' ' ')
 echo "demo with change: $WITH"
 # 4. demo without the change
-git stash push -q -- src
+git apply -R /tmp/confirm-$P.diff
 WITHOUT=$(timeout 600 bash -c "$DEMOCMD" 2>&1 | grep -E "^test result" | tr '\n' ' ')
-git stash pop -q
+git apply /tmp/confirm-$P.diff
 echo "demo without change: $WITHOUT"
 cp /tmp/confirm-$P.diff "$OUT/patch.diff"; cp "$DEMOPATH" "$OUT/"; 
 python3 - "$OUT" "$P" "$SUITE" "$WITH" "$WITHOUT" <<'PY'
